@@ -12,6 +12,26 @@ HOT_NOTE = (SEQ_NOTE + " 'Notified' is read as 'dequeued by the reloader' (the c
             "armed over unordered reloads) are compared for presence only.")
 
 CHECKS = {
+ "C04": dict(
+  category="model_checking",
+  text="Sources.tla grows every tree up to a node bound, freezes it into an archive with every subset of explicit directory members and "
+       "registers the members in every order through the transcription of register_file; TLC checks the index against the tree "
+       "(each child exactly once, right kind/id/extension, root included, nothing else exists; as-built registration is the negative "
+       "control). Every generated case is materialised as a real directory, tar and zip archives (in memory and file-backed, stored and "
+       "deflated, './' prefixes, long and unicode names) and an embedded table, and every query of the universe is asked of each source, "
+       "also from 4 threads; the embed! macro is compared with the filesystem on a fixed directory.",
+  design="5/C04", note="Trees of <= 3 nodes exhaustively (4 in the thorough tier), <= 5 by simulation; 2 model names x 4 concretisations; archive formats trusted to the tar/zip crates.",
+  technique="TLA+ spec Sources.tla checked by TLC; spec->code replay of every generated (tree, members, order) on all source kinds",
+ ),
+ "C11": dict(
+  category="model_checking",
+  text="Sources.tla states which ids a directory / recursive directory asset lists (RefDirIds/RefRecIds) and TLC checks the code's algorithm against "
+       "them for every tree, three extension lists and an unreadable sub-directory; every generated tree is loaded through load_dir / "
+       "load_rec_dir (also Arc<T>), ids, iter and iter_cached on every source kind and compared with the specification's sets, incl. the root "
+       "id and a missing directory.",
+  design="5/C11", note="Same bounds as C04; unreadable directories are simulated by a wrapper source.",
+  technique="TLA+ spec Sources.tla checked by TLC; spec->code replay of generated trees through the directory assets on all source kinds",
+ ),
  "C01": dict(
   category="model_checking",
   text="CacheRace.tla splits every call into look-up, value production and first-writer-wins insertion; TLC checks StableHandle, SeesWinner, "
